@@ -51,6 +51,12 @@ def hostile_values(f, quick):
             ("bytes_empty", b""), ("bytes_w-1", bytes(max(n - 1, 0))), ("bytes_w", b"\x41" * n), ("bytes_w+1", bytes(n + 1)),
             ("list_empty", []), ("list_w", [0] * n), ("list_w+1", [0] * (n + 1)), ("list_256", [256] * n),
             ("none", None), ("bool", True)]
+    if t != "CH" and k in "UI" and getattr(f, "scale", 1) != 1 and math.frexp(f.scale)[0] == 0.5:
+        # fields scaled by a power of two (2**-5 .. 2**-55): exact multiples of the scale, so the raw integer the
+        # payload must carry is not a matter of rounding - at, and one unit beyond, both ends of the range
+        sc = f.scale
+        out += [("scaled_raw_100", 100 * sc), ("scaled_raw_max", hi * sc), ("scaled_raw_min", lo * sc), ("scaled_raw_max_plus_1", (hi + 1) * sc), ("scaled_raw_min_minus_1", (lo - 1) * sc),
+                ("scaled_raw_max_plus_4", (hi + 4) * sc)]
     if k != "C":  # text that reads as a number is still text
         out += [("str_numeric", "12"), ("str_numeric_float", "0.5"), ("bytes_numeric", b"12"), ("str_numeric_padded", " 7 ")]
     if k == "C":  # text given as bytes that are not valid UTF-8 (ISO 8859-1 is the documented encoding of these fields)
